@@ -81,12 +81,32 @@ def run(tier="quick", seed=0):
                 ok, why, args = False, "the bytes of a packet whose present arguments are %r are not header, command, sequence, those arguments in order, payload: %s" % (gargs, gb.hex()), gargs
         except Exception as e:      # noqa
             ok, why = False, "%s: %s" % (type(e).__name__, e)
+        # an encoding that FAILS (a field too wide for its byte) leaves the packet as it was: once the field is corrected the bytes are
+        # those of a new packet with the same fields, and the payload is the one given
+        if i % 4 == 0:
+            try:
+                ev += 1
+                bad_field = ("dest_y", "src_x", "tag", "dest_x")[(i // 4) % 4]
+                f2 = dict(f, **{bad_field: 256})
+                sp = SCPPacket(cmd_rc=3, seq=0x1234, arg1=args[0], arg2=args[1], arg3=args[2], **f2)
+                try:
+                    sp.bytestring
+                    failed = False
+                except Exception:      # noqa (struct.error)
+                    failed = True
+                setattr(sp, bad_field, 255)
+                fresh = SCPPacket(cmd_rc=3, seq=0x1234, arg1=args[0], arg2=args[1], arg3=args[2], **dict(f, **{bad_field: 255}))
+                if failed and (bytes(sp.data) != bytes(f["data"]) or sp.bytestring != fresh.bytestring):
+                    ok, why = False, ("a packet whose %s was 256 could not be encoded; after setting it to 255 its bytes are %s, those of a new packet with "
+                                      "the same fields are %s" % (bad_field, sp.bytestring.hex(), fresh.bytestring.hex()))
+            except Exception as e:      # noqa
+                ok, why = False, "%s: %s" % (type(e).__name__, e)
         if not ok:
             viol.append({"id": "pkt_%d" % i, "clause": "packet_contract", "why": why or "a contract clause is false on the bytes / packet the real code produced",
                          "inputs": {"fields": {k2: repr(v) for k2, v in f.items()}, "args": args}})
         if i < 2:
             samples.append({"packet": {k2: repr(v) for k2, v in f.items()}, "args": args, "bytes": b.hex()})
     return {"name": "c15_packets", "evaluations": ev, "distinct_nontrivial": len(distinct),
-            "rule": "%d seeded packets with boundary-valued fields, 0-3 leading arguments and every one of the 8 patterns of present / absent arguments (gaps included), payload lengths 0,1,3,4,11,12,40; every truncation 14..30 x n_args 0..3 decoded; every fifth packet built from numpy integers; packets decoded from a bytearray that is overwritten afterwards keep their payload; contract text evaluated natively (non-trivial/distinct: (length, n_args, args present) triples)" % n,
+            "rule": "%d seeded packets with boundary-valued fields, 0-3 leading arguments and every one of the 8 patterns of present / absent arguments (gaps included), a failed encoding (one byte-wide field set to 256) followed by the corrected one, payload lengths 0,1,3,4,11,12,40; every truncation 14..30 x n_args 0..3 decoded; every fifth packet built from numpy integers; packets decoded from a bytearray that is overwritten afterwards keep their payload; contract text evaluated natively (non-trivial/distinct: (length, n_args, args present) triples)" % n,
             "bound": "%d packets" % n, "exhaustive": False, "label": "bounded", "samples": samples,
             "violations": viol[:5], "seconds": round(time.time() - t0, 2)}
